@@ -42,7 +42,7 @@ def run(tier, seed):
     plan = [("guix2", None, 30), ("getx3", None, 40), ("tut13x2", allrm, 25)] if quick else \
            [("guix2", None, 300), ("getx3", None, 300), ("guix3e", None, 250), ("guic", None, 200), ("getx2", None, 300), ("tut13x2", allrm, 300),
             ("tut13x3", allrm, 250), ("guix2", {"pool_filter": "copy"}, 150)]
-    return D.generic_run(PID, tier, seed, plan, make_jobs, signature, describe,
+    return D.generic_run(PID, tier, seed, plan, make_jobs, signature, describe, explore_plan=D.explore_plan(tier, ['NoC05'], removable=True),
                          rule="randomized schedules on graphs with removable states (tutorial_gui/tutorial_get; every state removable via "
                               "unset_mode=fi), pool_filter reuse/block/copy; TLC validates every unset and sync request")
 
